@@ -226,8 +226,8 @@ def sample_of(c):
 
 
 def plan(tier):
-    n = 15 if tier == "quick" else 56
-    jobs = [{"part": "hist", "examples": 40 if tier == "quick" else 500} for _ in range(n)]
+    n = 15 if tier == "quick" else 64
+    jobs = [{"part": "hist", "examples": 40 if tier == "quick" else 1500} for _ in range(n)]
     jobs.append({"part": "one-call", "kind": "write-then-read", "n": 65534})
     jobs.append({"part": "one-call", "kind": "many-fragmented", "n": 65535})
     if tier != "quick":
